@@ -1,7 +1,6 @@
 package main
 
 import (
-	"syscall"
 	"context"
 	"encoding/json"
 	"fmt"
@@ -12,6 +11,7 @@ import (
 	"strings"
 	"time"
 
+	"verifharness/evid"
 	"verifharness/gen"
 	"verifharness/gram"
 	"verifharness/ygo"
@@ -265,11 +265,8 @@ func nativeStillRunning(w *Worker, text string, d time.Duration) (bool, error) {
 	os.WriteFile(in, []byte(text), 0o644)
 	ctx, cancel := context.WithTimeout(context.Background(), d)
 	defer cancel()
-	// `timeout` is a second safety net: even an orphaned run ends after 30 s
-	cmd := exec.CommandContext(ctx, "timeout", "-s", "KILL", "30", nativeBin, "generate", "go", in, filepath.Join(dir, "out.go"))
-	cmd.Dir = dir
-	// a spinning yaccgo must not outlive this worker
-	cmd.SysProcAttr = &syscall.SysProcAttr{Pdeathsig: syscall.SIGKILL}
+	// process group + parent-death signal + CPU rlimit: a spinning yaccgo cannot outlive this worker
+	cmd := evid.Guarded(ctx, 40, dir, nil, nativeBin, "generate", "go", in, filepath.Join(dir, "out.go"))
 	cmd.Run()
 	return ctx.Err() == context.DeadlineExceeded, nil
 }
